@@ -1779,6 +1779,15 @@ class Method:
             else:
                 params.add(body)
 
+        # `input.fields` is keyed by `Field.name`, which carries the
+        # reserved-word suffix (e.g. `class_`); the http rule names the
+        # fields as they are written in the proto (e.g. `class`).
+        if self.input.meta.address.is_proto_plus_type:
+            params = {
+                param + "_" if param in utils.RESERVED_NAMES else param
+                for param in params
+            }
+
         return set(self.input.fields) - params
 
     @property
